@@ -10,18 +10,31 @@
 // to a global, mutex-protected log (file zz_verif_evlog.go, dropped into each touched package), and so
 // that a white-box snapshot of the receiver is taken inside the critical section right before every
 // Unlock/RUnlock of a receiver mutex (if the receiver type has a method `zzverifSnap() string`, which a
-// hook file provides).  The Lean models (transition systems with one label per atomic action) must
+// hook file provides).  A synchronisation object that is not a receiver field — the result of a receiver
+// method (`s.getLock(key).Lock()`) or a local — is named in the log through a second hook,
+// `zzverifObj(any) string`, if the receiver type has one (without it such call-result receivers are not
+// instrumented, as before).  The Lean models (transition systems with one label per atomic action) must
 // accept the logged sequence step by step: `harness/evtrace` + `lean/Driver/EvTrace.lean`.
 //
 // Ordering discipline (what makes the logged order a legal order of the real execution):
 //   - NON-BLOCKING actions (Unlock, RUnlock, Release, close, atomics, TryLock, non-blocking selects,
 //     ctx.Err) are executed INSIDE the log mutex together with their log entry: log order = real order.
-//   - BLOCKING acquisitions (Lock, RLock, Acquire, channel receive / blocking select arm) are logged
-//     right AFTER they return.  An acquisition can only complete after the release that enabled it,
+//   - A channel SEND statement is first attempted without blocking inside the log mutex (a buffered channel with
+//     room: the entry is atomic with the send and therefore precedes the entry of the receive it enables); only
+//     when that attempt finds the channel not ready is it performed as a blocking action and logged afterwards.
+//   - BLOCKING acquisitions (Lock, RLock, Acquire, sync.Once.Do, channel receive / blocking select arm; also as a
+//     deferred call `defer x.Lock()`) are logged right AFTER they return.  An acquisition can only complete after the release that enabled it,
 //     and that release is logged atomically with itself, so the acquire entry still follows the entry of
 //     the enabling release; the only effect of the delay is that the log may show a resource as still
 //     free a little longer than it really was, which never disables a logged step of a permit- or
 //     lock-like primitive.
+//
+// Timers and channel identities (DelayQueue): time.NewTimer(d), t.Reset(d), t.Stop() are non-blocking actions
+// ("NewTimer", "TimerReset(t)", "TimerStop(t)", the boolean result logged).  A close(x) / a blocking select arm
+// `<-x` whose channel is held by a plain local variable x logs the channel's identity "ch=<n>" (numbered at first
+// sight, never reused; zzverifChanID is also available to snapshot hooks).  VerifEvClock(text) reads the
+// monotonic clock INSIDE the log mutex and logs the reading at that position: harness elements implement
+// Delay() with it, so every clock reading the code acts upon is in the log, monotone in log order.
 //
 // The instrumentation only adds waiting on one extra mutex around non-blocking actions: every
 // behaviour of the instrumented code is a behaviour of the original code under some schedule.
@@ -48,8 +61,10 @@ package %s
 
 import (
 	"fmt"
+	"reflect"
 	"runtime"
 	"sync"
+	"time"
 )
 
 type zzverifEvent struct {
@@ -62,7 +77,22 @@ var (
 	zzverifLog  []zzverifEvent
 	zzverifOn   bool
 	zzverifTids = map[uint64]int{}
+	zzverifBase = time.Now().Add(-time.Second)
 )
+
+// VerifEvClock reads the monotonic clock (ns since one second before VerifEvStart) INSIDE the log mutex
+// and, if text is not empty, appends the entry "<text>@<reading>" at that very position of the log: the
+// readings are monotone in log order, and a reading is the real time of its log position.  (Used by
+// harness elements whose Delay() is the only clock the DelayQueue code looks at.)
+func VerifEvClock(text string) int64 {
+	zzverifG.Lock()
+	r := int64(time.Since(zzverifBase))
+	if text != "" && zzverifOn {
+		zzverifLog = append(zzverifLog, zzverifEvent{zzverifGid(), fmt.Sprintf("%%s@%%d", text, r)})
+	}
+	zzverifG.Unlock()
+	return r
+}
 
 // zzverifGid: the current goroutine's id (parsed from the stack header; only used while logging is on).
 func zzverifGid() uint64 {
@@ -87,6 +117,7 @@ func VerifEvStart() {
 	zzverifG.Lock()
 	zzverifLog = zzverifLog[:0]
 	zzverifTids = map[uint64]int{}
+	zzverifBase = time.Now().Add(-time.Second)
 	zzverifOn = true
 	zzverifG.Unlock()
 }
@@ -158,6 +189,50 @@ func zzverifAfter(site string) {
 	zzverifG.Unlock()
 }
 
+// zzverifAcq performs a blocking acquisition given as a method value (deferred Lock: the receiver is
+// evaluated at the defer statement, as in the original) and logs it right after it returned.
+func zzverifAcq(site string, f func()) {
+	f()
+	zzverifAfter(site)
+}
+
+// zzverifChanID: the identity of a channel as a small number assigned at first sight (the registry keeps the
+// channel alive, so identities are never reused).  Must be called with zzverifG held.
+var zzverifChans = map[uintptr][2]any{}
+
+func zzverifChanID(ch any) int {
+	v := reflect.ValueOf(ch)
+	if !v.IsValid() || v.Kind() != reflect.Chan {
+		return -1
+	}
+	p := v.Pointer()
+	if e, ok := zzverifChans[p]; ok {
+		return e[0].(int)
+	}
+	id := len(zzverifChans) + 1
+	zzverifChans[p] = [2]any{id, ch}
+	return id
+}
+
+// zzverifAfterCh logs a completed receive (select arm) from the channel held by a local variable, with the
+// channel's identity; zzverifRelCh a close of such a channel, atomically with the close.
+func zzverifAfterCh(site string, ch any) {
+	zzverifG.Lock()
+	if zzverifOn {
+		zzverifAppend(site, fmt.Sprintf("ch=%%d", zzverifChanID(ch)))
+	}
+	zzverifG.Unlock()
+}
+
+func zzverifRelCh(site string, f func(), ch any) {
+	zzverifG.Lock()
+	if zzverifOn {
+		zzverifAppend(site, fmt.Sprintf("ch=%%d", zzverifChanID(ch)))
+	}
+	f()
+	zzverifG.Unlock()
+}
+
 // zzverifAfterV logs a blocking call that has just returned v and passes v on.
 func zzverifAfterV[T any](site string, v T) T {
 	zzverifG.Lock()
@@ -182,23 +257,77 @@ func zzverifRel(site string, f func(), snap func() string) {
 // zzverifEnter / zzverifLeave bracket a statement whose synchronisation actions are all non-blocking:
 // they run inside the log mutex, each logging itself with zzverifIn / zzverifInV.
 func zzverifEnter() { zzverifG.Lock() }
-func zzverifLeave() { zzverifG.Unlock() }
+func zzverifLeave()  { zzverifUnlockY() }
 func zzverifLeaveB(b bool) bool {
-	zzverifG.Unlock()
+	zzverifUnlockY()
 	return b
 }
 func zzverifLeaveV[T any](v T) T {
-	zzverifG.Unlock()
+	zzverifUnlockY()
 	return v
 }
 func zzverifLeaveV2[A, B any](a A, b B) (A, B) {
-	zzverifG.Unlock()
+	zzverifUnlockY()
 	return a, b
+}
+
+// VerifEvYield(permille): while logging is on, the goroutine yields the processor after that fraction of its
+// bracketed non-blocking actions (atomics, Try…, ctx.Err), right after leaving the log mutex, so that other
+// goroutines get between two actions of one call more often.  0 (the default) = never.  Only the schedule changes.
+var (
+	zzverifYieldPm  int
+	zzverifYieldRnd uint32 = 2463534242
+)
+
+func VerifEvYield(permille int) {
+	zzverifG.Lock()
+	zzverifYieldPm = permille
+	zzverifG.Unlock()
+}
+
+// zzverifUnlockY leaves the log mutex (held by the caller) and possibly yields.
+func zzverifUnlockY() {
+	y := false
+	if zzverifOn && zzverifYieldPm > 0 {
+		zzverifYieldRnd = zzverifYieldRnd*1664525 + 1013904223
+		y = int(zzverifYieldRnd>>16)%%1000 < zzverifYieldPm
+	}
+	zzverifG.Unlock()
+	if y {
+		runtime.Gosched()
+	}
 }
 func zzverifIn(site string) { zzverifAppend(site, "") }
 func zzverifInV[T any](site string, v T) T {
 	zzverifAppend(site, zzverifFmt(any(v)))
 	return v
+}
+
+// Object naming (receiver types with a hook method zzverifObj(any) string): a synchronisation object that
+// is not a receiver field (the result of a receiver method such as s.getLock(key), or a local) is named by
+// the hook, and the name is logged with the action: "<result>,<name>" for instants, "<name>" otherwise.
+// zzverifBind runs inside the log mutex (instants only), so the global is not shared.
+var zzverifBound any
+
+func zzverifBind[T any](x T) T {
+	zzverifBound = x
+	return x
+}
+func zzverifInVO[T any](site string, v T, obj func(any) string) T {
+	r := zzverifFmt(any(v))
+	if zzverifOn {
+		r += "," + obj(zzverifBound)
+	}
+	zzverifBound = nil
+	zzverifAppend(site, r)
+	return v
+}
+
+// zzverifAfterS logs a blocking acquisition that has just returned, with the name of the acquired object.
+func zzverifAfterS(site string, res string) {
+	zzverifG.Lock()
+	zzverifAppend(site, res)
+	zzverifG.Unlock()
 }
 func zzverifInV2[A, B any](site string, a A, b B) (A, B) {
 	zzverifAppend(site, zzverifFmt(any(a))+","+zzverifFmt(any(b)))
@@ -213,6 +342,7 @@ type inst struct {
 	fn    string // Type_Func
 	recv  string
 	snap  bool // the receiver type has zzverifSnap
+	obj   bool // the receiver type has zzverifObj (names synchronisation objects that are not receiver fields)
 	fails []string
 }
 
@@ -247,22 +377,62 @@ func (in *inst) target(x ast.Expr) string {
 	if f, ok := in.recvField(x); ok {
 		return f
 	}
+	if in.derived(x) {
+		return strings.ReplaceAll(strings.TrimPrefix(in.src(x), in.recv+"."), " ", "") // no spaces in a log entry's site
+	}
 	return in.src(x)
+}
+
+// derived: x is the result of a method of the receiver, `recv.m(args)` (e.g. s.getLock(key)); only
+// recognised as a synchronisation object when the receiver type can name it (hook zzverifObj).
+func (in *inst) derived(x ast.Expr) bool {
+	c, ok := x.(*ast.CallExpr)
+	if !ok || !in.obj || in.recv == "" {
+		return false
+	}
+	sel, ok := c.Fun.(*ast.SelectorExpr)
+	if !ok {
+		return false
+	}
+	id, ok := sel.X.(*ast.Ident)
+	return ok && id.Name == in.recv
+}
+
+// named: the synchronisation object x of a call x.M() is to be named through recv.zzverifObj
+func (in *inst) named(x ast.Expr) bool {
+	if !in.obj {
+		return false
+	}
+	if _, isField := in.recvField(x); isField {
+		return false
+	}
+	if id, ok := x.(*ast.Ident); ok {
+		return id.Name != in.recv
+	}
+	return in.derived(x)
+}
+
+func (in *inst) objFn() ast.Expr {
+	return &ast.SelectorExpr{X: ident(in.recv), Sel: ident("zzverifObj")}
 }
 
 type kind int
 
 const (
-	kNone     kind = iota
-	kAcquire       // blocking: log after it returns
-	kRelease       // non-blocking, ends a critical section / frees a resource: run inside the log mutex
-	kInstant       // non-blocking action with a result: run inside the log mutex
+	kNone    kind = iota
+	kAcquire      // blocking: log after it returns
+	kRelease      // non-blocking, ends a critical section / frees a resource: run inside the log mutex
+	kInstant      // non-blocking action with a result: run inside the log mutex
 )
 
-var acquireMethods = map[string]string{"Lock": "Lock", "RLock": "RLock", "Acquire": "SemAcquire", "Wait": "Wait"}
+var acquireMethods = map[string]string{"Lock": "Lock", "RLock": "RLock", "Acquire": "SemAcquire", "Wait": "Wait",
+	"Do": "OnceDo"} // once.Do(f): returns after the (first) f completed; f's body is instrumented on its own
 var releaseMethods = map[string]string{"Unlock": "Unlock", "RUnlock": "RUnlock", "Release": "SemRelease"}
 var instantMethods = map[string]string{"TryLock": "TryLock", "TryRLock": "TryRLock", "TryAcquire": "SemTryAcquire",
 	"Load": "AtomicLoad", "Store": "AtomicStore", "CompareAndSwap": "CAS", "Swap": "AtomicSwap", "Add": "AtomicAdd"}
+
+// methods of *time.Timer (receiver fields or plain local identifiers)
+var timerMethods = map[string]string{"Reset": "TimerReset", "Stop": "TimerStop"}
 
 // classify recognises a synchronisation call; site is "Action(target)".
 func (in *inst) classify(c *ast.CallExpr) (kind, string) {
@@ -279,10 +449,15 @@ func (in *inst) classify(c *ast.CallExpr) (kind, string) {
 	if id, ok := sel.X.(*ast.Ident); ok && id.Name == "ctx" && sel.Sel.Name == "Err" {
 		return kInstant, "ctx.Err"
 	}
+	// timers: time.NewTimer(d) / t.Reset(d) / t.Stop() (non-blocking; the boolean result is logged)
+	if pk, ok := sel.X.(*ast.Ident); ok && pk.Name == "time" && sel.Sel.Name == "NewTimer" && len(c.Args) == 1 {
+		return kInstant, "NewTimer"
+	}
 	// methods: only on receiver fields or plain local identifiers (mutexes, semaphores, atomics, timers)
 	_, isField := in.recvField(sel.X)
 	_, isIdent := sel.X.(*ast.Ident)
-	if !isField && !isIdent {
+	isDerived := in.derived(sel.X)
+	if !isField && !isIdent && !isDerived {
 		return kNone, ""
 	}
 	if id, ok := sel.X.(*ast.Ident); ok && (id.Name == in.recv || id.Name == "ctx" || id.Name == "atomic" || id.Name == "time") {
@@ -294,7 +469,11 @@ func (in *inst) classify(c *ast.CallExpr) (kind, string) {
 	if m, ok := releaseMethods[sel.Sel.Name]; ok {
 		return kRelease, m + "(" + in.target(sel.X) + ")"
 	}
-	if m, ok := instantMethods[sel.Sel.Name]; ok && isField {
+	// (a local is only trusted with the Try… methods, and only where objects can be named: `l := s.getLock(key); l.TryLock()`)
+	if m, ok := instantMethods[sel.Sel.Name]; ok && (isField || isDerived || (isIdent && in.obj && strings.HasPrefix(sel.Sel.Name, "Try"))) {
+		return kInstant, m + "(" + in.target(sel.X) + ")"
+	}
+	if m, ok := timerMethods[sel.Sel.Name]; ok && ((sel.Sel.Name == "Stop" && len(c.Args) == 0) || (sel.Sel.Name == "Reset" && len(c.Args) == 1)) {
 		return kInstant, m + "(" + in.target(sel.X) + ")"
 	}
 	return kNone, ""
@@ -346,7 +525,12 @@ func (in *inst) wrapInstants(e *ast.Expr) (found, blocking bool) {
 			switch k {
 			case kInstant:
 				found = true
-				*p = call("zzverifInV", in.site(site), v)
+				if sel, ok := v.Fun.(*ast.SelectorExpr); ok && in.named(sel.X) {
+					sel.X = call("zzverifBind", sel.X)
+					*p = call("zzverifInVO", in.site(site), v, in.objFn())
+				} else {
+					*p = call("zzverifInV", in.site(site), v)
+				}
 			case kAcquire:
 				blocking = true
 			case kRelease:
@@ -400,6 +584,24 @@ func (in *inst) hasInstant(e ast.Expr) bool {
 		return !found
 	})
 	return found
+}
+
+// plain reports whether evaluating e twice is the same as evaluating it once (no call, no receive, no
+// function literal): identifiers, selectors, literals, composite literals of such, index expressions.
+func (in *inst) plain(e ast.Expr) bool {
+	ok := true
+	ast.Inspect(e, func(n ast.Node) bool {
+		switch x := n.(type) {
+		case *ast.CallExpr, *ast.FuncLit:
+			ok = false
+		case *ast.UnaryExpr:
+			if x.Op == token.ARROW {
+				ok = false
+			}
+		}
+		return ok
+	})
+	return ok
 }
 
 func (in *inst) fail(n ast.Node, why string) {
@@ -456,9 +658,44 @@ func (in *inst) stmt(s ast.Stmt) []ast.Stmt {
 			k, site := in.classify(c)
 			switch k {
 			case kAcquire:
+				in.funcLits(c)
+				if sel, ok := c.Fun.(*ast.SelectorExpr); ok && in.named(sel.X) {
+					// { zzverifT := X; zzverifT.Lock(); zzverifAfterS(site, recv.zzverifObj(zzverifT)) }
+					bind := &ast.AssignStmt{Lhs: []ast.Expr{ident("zzverifT")}, Tok: token.DEFINE, Rhs: []ast.Expr{sel.X}}
+					sel.X = ident("zzverifT")
+					return []ast.Stmt{&ast.BlockStmt{List: []ast.Stmt{bind, s,
+						stmtOf(call("zzverifAfterS", in.site(site), &ast.CallExpr{Fun: in.objFn(), Args: []ast.Expr{ident("zzverifT")}}))}}}
+				}
 				return []ast.Stmt{s, stmtOf(call("zzverifAfter", in.site(site)))}
 			case kRelease:
+				if id, ok := c.Fun.(*ast.Ident); ok && id.Name == "close" {
+					if ch, ok := c.Args[0].(*ast.Ident); ok {
+						// close of a channel held by a local variable: its identity is logged
+						return []ast.Stmt{stmtOf(call("zzverifRelCh", in.site(site), thunk(c), ident(ch.Name)))}
+					}
+				}
+				if sel, ok := c.Fun.(*ast.SelectorExpr); ok && in.named(sel.X) {
+					// { zzverifT := X; zzverifRel(site, func() { zzverifT.Unlock() }, func() string { return recv.zzverifObj(zzverifT) }) }
+					bind := &ast.AssignStmt{Lhs: []ast.Expr{ident("zzverifT")}, Tok: token.DEFINE, Rhs: []ast.Expr{sel.X}}
+					sel.X = ident("zzverifT")
+					name := &ast.FuncLit{
+						Type: &ast.FuncType{Params: &ast.FieldList{}, Results: &ast.FieldList{List: []*ast.Field{{Type: ident("string")}}}},
+						Body: &ast.BlockStmt{List: []ast.Stmt{&ast.ReturnStmt{Results: []ast.Expr{
+							&ast.CallExpr{Fun: in.objFn(), Args: []ast.Expr{ident("zzverifT")}}}}}},
+					}
+					return []ast.Stmt{&ast.BlockStmt{List: []ast.Stmt{bind, stmtOf(call("zzverifRel", in.site(site), thunk(c), name))}}}
+				}
 				return []ast.Stmt{stmtOf(call("zzverifRel", in.site(site), thunk(c), in.snapArg(site)))}
+			case kInstant:
+				// a statement that is an atomic store (x.Store(v), atomic.StoreInt32(&x, v)) has no value to log
+				if sel, ok := c.Fun.(*ast.SelectorExpr); ok && strings.HasPrefix(sel.Sel.Name, "Store") {
+					for i := range c.Args {
+						if _, blocking := in.wrapInstants(&c.Args[i]); blocking {
+							in.fail(s, "statement mixes blocking and non-blocking synchronisation")
+						}
+					}
+					return []ast.Stmt{stmtOf(call("zzverifEnter")), stmtOf(call("zzverifIn", in.site(site))), s, stmtOf(call("zzverifLeave"))}
+				}
 			}
 		}
 		if u, ok := v.X.(*ast.UnaryExpr); ok && u.Op == token.ARROW {
@@ -466,8 +703,27 @@ func (in *inst) stmt(s ast.Stmt) []ast.Stmt {
 		}
 		return in.simple(s, &v.X)
 	case *ast.SendStmt:
-		// a send may block: logged after it completed
-		return []ast.Stmt{s, stmtOf(call("zzverifAfter", in.site("Send("+in.target(v.Chan)+")")))}
+		// A send may block.  If the value is a plain expression (evaluating it twice is the same as once), a
+		// non-blocking attempt is made first INSIDE the log mutex: when it succeeds (always, for a buffered
+		// channel that has room) the entry is atomic with the send, so it precedes the entry of the receive it
+		// enables.  Otherwise (the attempt found the channel not ready) the send blocks outside the log mutex
+		// and is logged right after it completed, like every blocking action.  A successful attempt is the
+		// original send succeeding at that moment: no new behaviour.  The channel expression is evaluated once,
+		// before the log mutex is taken (it may panic: nil dereference).
+		site := in.site("Send(" + in.target(v.Chan) + ")")
+		if !in.plain(v.Value) {
+			return []ast.Stmt{s, stmtOf(call("zzverifAfter", site))}
+		}
+		ch := ident("zzverifCh")
+		try := &ast.SelectStmt{Body: &ast.BlockStmt{List: []ast.Stmt{
+			&ast.CommClause{Comm: &ast.SendStmt{Chan: ch, Value: v.Value},
+				Body: []ast.Stmt{stmtOf(call("zzverifIn", site)), stmtOf(call("zzverifLeave"))}},
+			&ast.CommClause{Body: []ast.Stmt{stmtOf(call("zzverifLeave")), &ast.SendStmt{Chan: ch, Value: v.Value},
+				stmtOf(call("zzverifAfter", site))}},
+		}}}
+		return []ast.Stmt{&ast.BlockStmt{List: []ast.Stmt{
+			&ast.AssignStmt{Lhs: []ast.Expr{ch}, Tok: token.DEFINE, Rhs: []ast.Expr{v.Chan}},
+			stmtOf(call("zzverifEnter")), try}}}
 	case *ast.DeferStmt:
 		k, site := in.classify(v.Call)
 		if k == kRelease {
@@ -475,6 +731,11 @@ func (in *inst) stmt(s ast.Stmt) []ast.Stmt {
 			if id, ok := v.Call.Args[1].(*ast.Ident); ok && id.Name == "close" {
 				in.fail(s, "deferred close")
 			}
+			return []ast.Stmt{s}
+		}
+		if k == kAcquire && len(v.Call.Args) == 0 {
+			// defer x.Lock()  ->  defer zzverifAcq(site, x.Lock): method value bound now, logged after it returned
+			v.Call = call("zzverifAcq", in.site(site), v.Call.Fun)
 			return []ast.Stmt{s}
 		}
 		in.funcLits(v.Call)
@@ -655,6 +916,9 @@ func (in *inst) stmt(s ast.Stmt) []ast.Stmt {
 			if hasDefault {
 				// non-blocking select: the whole statement runs inside the log mutex
 				cc.Body = append([]ast.Stmt{stmtOf(call("zzverifIn", in.site("Select:"+arm))), stmtOf(call("zzverifLeave"))}, cc.Body...)
+			} else if ch := recvIdent(cc.Comm); ch != "" {
+				// receive from a channel held by a local variable: its identity is logged
+				cc.Body = append([]ast.Stmt{stmtOf(call("zzverifAfterCh", in.site("Select:"+arm), ident(ch)))}, cc.Body...)
 			} else {
 				cc.Body = append([]ast.Stmt{stmtOf(call("zzverifAfter", in.site("Select:"+arm)))}, cc.Body...)
 			}
@@ -679,6 +943,25 @@ func (in *inst) stmt(s ast.Stmt) []ast.Stmt {
 		return []ast.Stmt{s}
 	}
 	return []ast.Stmt{s}
+}
+
+// recvIdent: the name of the local variable x if comm is `<-x` / `v := <-x` / `v = <-x`, else "".
+func recvIdent(comm ast.Stmt) string {
+	var e ast.Expr
+	switch c := comm.(type) {
+	case *ast.ExprStmt:
+		e = c.X
+	case *ast.AssignStmt:
+		if len(c.Rhs) == 1 {
+			e = c.Rhs[0]
+		}
+	}
+	if u, ok := e.(*ast.UnaryExpr); ok && u.Op == token.ARROW {
+		if id, ok := u.X.(*ast.Ident); ok {
+			return id.Name
+		}
+	}
+	return ""
 }
 
 func (in *inst) armName(comm ast.Stmt) string {
@@ -746,7 +1029,8 @@ func main() {
 			os.Exit(1)
 		}
 		// receiver types that have a snapshot hook (declared in any file of the package directory)
-		snapTypes := snapshotTypes(filepath.Dir(path))
+		snapTypes := hookTypes(filepath.Dir(path), "zzverifSnap")
+		objTypes := hookTypes(filepath.Dir(path), "zzverifObj")
 		for _, d := range f.Decls {
 			fd, ok := d.(*ast.FuncDecl)
 			if !ok || fd.Body == nil {
@@ -775,7 +1059,7 @@ func main() {
 			if typ != "" {
 				name = typ + "_" + name
 			}
-			in := &inst{fset: fset, fn: name, recv: recv, snap: snapTypes[typ]}
+			in := &inst{fset: fset, fn: name, recv: recv, snap: snapTypes[typ], obj: objTypes[typ] && recv != ""}
 			in.block(fd.Body)
 			fails = append(fails, in.fails...)
 		}
@@ -805,8 +1089,9 @@ func main() {
 	}
 }
 
-// snapshotTypes: receiver types for which some file of dir declares `func (x *T[...]) zzverifSnap() string`.
-func snapshotTypes(dir string) map[string]bool {
+// hookTypes: receiver types for which some file of dir declares the hook method `func (x *T[...]) <method>(…) string`
+// (zzverifSnap() string: white-box snapshot; zzverifObj(any) string: name of a synchronisation object).
+func hookTypes(dir string, method string) map[string]bool {
 	out := map[string]bool{}
 	ents, _ := os.ReadDir(dir)
 	for _, e := range ents {
@@ -820,7 +1105,7 @@ func snapshotTypes(dir string) map[string]bool {
 		}
 		for _, d := range f.Decls {
 			fd, ok := d.(*ast.FuncDecl)
-			if !ok || fd.Recv == nil || fd.Name.Name != "zzverifSnap" || len(fd.Recv.List) != 1 {
+			if !ok || fd.Recv == nil || fd.Name.Name != method || len(fd.Recv.List) != 1 {
 				continue
 			}
 			t := fd.Recv.List[0].Type
